@@ -168,6 +168,23 @@ CLAIMED["C13"] = dict(
     technique="Lean 4 field identities + Fin-rotation/ModEq index proof + correspondence and direct-sum oracle",
     ref="DESIGN.md §5 C13")
 
+CLAIMED["C11"] = dict(
+    text="Lean 4 proof about the array pipeline of one_transition_spectrum re-extracted from source on every run (hfft without length, "
+         "fftshift, flipud, slice [Nt//2, Nt+Nt//2)): exactly Nt samples are returned and sample j is the Fourier sum at signed index "
+         "-(j+Nt//2-Nt+2) of the (2Nt-2)-point transform for every Nt >= 4 (spectrum_index_map) - hence never the index the returned "
+         "2Nt-point axis assigns to it (axis_displacement_witness: the recorded two-point displacement, a known finding). Dipole "
+         "algebra over any commutative ring: strengths scale with the square of a common factor, scalar products (strengths and "
+         "dipole-dipole geometry factors) are invariant under a common orthogonal rotation, and the exciton transformation conserves the "
+         "total dipole strength (sum rule) for every orthogonal S. Tied to the code by comparing every sample of calculate(raw=True) "
+         "with the Fourier sum selected by the Lean index map evaluated on the package's own line-shape functions (2e-14 relative), "
+         "the returned axis with rwa + index*pi/(Nt dt), and by the oracle: dipole scaling, common rotation (also with point-dipole "
+         "couplings), relabelling, coupling-independent integral = 2 pi sum|d_k|^2, unchanged Hamiltonian/dipole operator/tensor, repeated "
+         "calculate() and repeated bootstrap() with and without supplied tensor / effective Hamiltonian.",
+    note="Lean kernel + standard axioms; extractor + harness (ours); _c2g line-shape integration, eigh and hfft are externals; the "
+         "equality with the Fourier integral ON THE RETURNED AXIS fails on the unchanged tree (known finding, open).",
+    technique="Lean 4 omega proofs over extracted index kernel + ring identities + sample-exact correspondence and symmetry oracle",
+    ref="DESIGN.md §5 C11")
+
 NOT_APPLICABLE = {}
 
 
